@@ -14,6 +14,8 @@
 //   restart                          new engine instance (over the same database when db=1)
 //   build <k> [sched=sync|defer:<seed>|mixed:<seed>|threads:<seed>[:<maxus>]] [cancel=iter:<n>|cb:<n>|thread:<us>]
 //   fresh <k>                        build k in a brand-new engine without database; prints freshval lines (oracle)
+//   foreign <schema> <recreate> <k>  a second engine + BuildDB object (other client schema version) builds k on the same file while the current one stays alive
+//   rule ... prq=a,b                 keys requested only from inside providePriorValue (oracle-only scenarios: no model counterpart)
 #include "common.h"
 #include "llbuild/Core/BuildEngine.h"
 #include "llbuild/Core/BuildDB.h"
@@ -34,7 +36,7 @@ using namespace llbuild::core;
 extern "C" { extern void (*llbuild_verif_engine_hook)(int point, const void* data); }
 
 struct RuleDef {
-  uint64_t sig = 0; bool obs = true; std::vector<int> req, single, follow, brA, brB, disc; int brslot = -1; bool defined = false; std::string ord = "rsf";
+  uint64_t sig = 0; bool obs = true; std::vector<int> req, single, follow, brA, brB, disc, prq; int brslot = -1; bool defined = false; std::string ord = "rsf";
 };
 static std::map<int, RuleDef> g_pending, g_defs;     // pending: as written so far; defs: snapshot seen by the current engine
 static std::map<int, uint64_t> g_env;
@@ -135,7 +137,12 @@ struct DTask : Task {
       else if (c == 'f') for (int r : d.follow) ti.mustFollow(kname(r));
     }
   }
-  void providePriorValue(TaskInterface, const ValueType& v) override { ev("prior %d %s", k, vs(v).c_str()); count_cb(); }
+  void providePriorValue(TaskInterface ti, const ValueType& v) override {
+    ev("prior %d %s", k, vs(v).c_str()); count_cb();
+    // prq=: keys requested (only) from inside providePriorValue; their values are delivered but not used (like single-use ones).
+    // No model counterpart: scenarios using it are judged by the protocol oracle only.
+    for (int r : d.prq) { size_t id = slots.size(); slots.push_back(Val()); single.push_back(true); ti.request(kname(r), id); }
+  }
   void provideValue(TaskInterface ti, uintptr_t id, const KeyType& key, const ValueType& v) override {
     ev("provide %d %lu %d %s", k, (unsigned long)id, kid(key.str()), vs(v).c_str());
     if (id < slots.size()) slots[id] = dec(v);
@@ -285,6 +292,7 @@ int main(int argc, char** argv) {
         else if (a == "req") d.req = ints(b); else if (a == "single") d.single = ints(b); else if (a == "follow") d.follow = ints(b);
         else if (a == "disc") d.disc = ints(b);
         else if (a == "ord" && b.size() == 3) d.ord = b;
+        else if (a == "prq") d.prq = ints(b);
         else if (a == "br") { SV p = split(b, ':'); d.brslot = atoi(p[0].c_str()); d.brA = ints(p.size() > 1 ? p[1] : ""); d.brB = ints(p.size() > 2 ? p[2] : ""); }
       }
       g_pending[k] = d;
@@ -294,6 +302,17 @@ int main(int argc, char** argv) {
     else if (t[0] == "recreate") recreate = t[1] == "1";
     else if (t[0] == "schema") schema = atoi(t[1].c_str());
     else if (t[0] == "restart") { newengine(usedb); started = true; printf("restart\n"); }
+    else if (t[0] == "foreign") {
+      // foreign <schema> <recreate 0|1> <key>: while the current engine (and its BuildDB object) stays alive, a SECOND engine with its own
+      // BuildDB on the same file and another client schema version builds <key> and goes away (another tool sharing the database)
+      auto saved = g_defs; g_defs = g_pending; g_quiet = true; g_cancel_iter = g_cancel_cb = -1;
+      { Del d2; BuildEngine e2(d2); BuildEngine* se = g_engine; g_engine = &e2; Sched ss = g_sched; g_sched = SYNC;
+        std::string err; auto db2 = createSQLiteBuildDB(dbpath, atoi(t[1].c_str()), t[2] == "1", &err);
+        if (!db2 || !e2.attachDB(std::move(db2), &err)) printf("foreign-attach-error %s\n", err.c_str());
+        else { g_in_build = true; auto& v = e2.build(kname(atoi(t[3].c_str()))); g_in_build = false; printf("foreign %s %s\n", t[3].c_str(), vs(v).c_str()); }
+        g_sched = ss; g_engine = se; }
+      g_quiet = false; g_defs = saved;
+    }
     else if (t[0] == "fresh") {
       // oracle: a brand-new engine with no history, current rules and external state
       auto saved = g_defs; g_defs = g_pending; g_quiet = true; g_freshvals.clear(); g_cancel_iter = g_cancel_cb = -1;
